@@ -340,10 +340,15 @@ pub proof fn lemma_number_chars(s: Seq<u8>, p: int)
 }
 
 impl<'de, R: Reader<'de>> Parser<R> {
-    // SIMD token search: contract assumed here; its block/tail agreement is the bounded Kani twin
-    // get_next_token_block_edge (thorough tier)
-    #[verifier::external_body]
-    pub fn get_next_token<const N: usize>(&mut self, tokens: [u8; N], advance: usize) -> (res: Option<u8>)
+//@extract file=src/parser.rs impl="Parser<R>" fn=get_next_token
+//@attr
+    #[verifier::loop_isolation(false)]
+//@subst /let r = &mut self\.read;/ => let _r = ();
+//@subst /\br\./ => self.read. #all
+//@subst /tokens\.iter\(\)\.take\(N\)/ => tokens.iter() #all
+//@subst /vor \|= v\.eq\(&u8x32::splat\(\*t\)\);/ => vor = vor | v.eq(&u8x32::splat(*t));
+//@subst /let v = unsafe \{ u8x32::from_slice_unaligned_unchecked\(chunk\) \};/ => let v = unsafe { u8x32::from_slice_unaligned_unchecked(chunk) };
+//@sig
         requires old(self).pinv(), advance <= 1,
         ensures final(self).pinv(), final(self).same_doc(old(self)), final(self).same_cache(old(self)),
             ({
@@ -356,7 +361,60 @@ impl<'de, R: Reader<'de>> Parser<R> {
                     None => final(self).read.idx() == s.len() && (forall|j: int| i <= j < s.len() ==> !tokens@.contains(#[trigger] s[j])),
                 }
             }),
-    { unimplemented!() }
+//@before /const LANS: usize = u8x32::LANES;/
+        let ghost s = self.read.data();
+        let ghost i0 = self.read.idx() as int;
+//@loop 1
+            invariant self.pinv(), self.same_doc(old(self)), self.same_cache(old(self)), i0 <= self.read.idx(),
+                forall|j: int| i0 <= j < self.read.idx() ==> !tokens@.contains(#[trigger] s[j]),
+            decreases s.len() - self.read.idx(),
+//@forname 2 it
+//@loop 2
+                invariant vor.lanes.len() == 32, v.lanes.len() == 32,
+                    forall|l: int| 0 <= l < 32 ==> (#[trigger] vor.lanes[l] <==> exists|k: int| 0 <= k < it.index@ && v.lanes[l] == tokens@[k]),
+//@before /let next = vor\.bitmask\(\);/
+            let ghost base = self.read.idx() as int;
+            proof {
+                assert forall|l: int| 0 <= l < 32 implies (#[trigger] vor.lanes[l] <==> tokens@.contains(s[base + l])) by {
+                    assert(v.lanes[l] == s[base + l]);
+                    if vor.lanes[l] { let k = choose|k: int| 0 <= k < N && v.lanes[l] == tokens@[k]; assert(tokens@[k] == s[base + l]); }
+                    if tokens@.contains(s[base + l]) { let k = choose|k: int| 0 <= k < tokens@.len() && tokens@[k] == s[base + l]; assert(v.lanes[l] == tokens@[k]); }
+                }
+            }
+//@before /let cnt = next\.trailing_zeros\(\) as usize;/
+                proof { lemma_tz32(next); }
+//@before /r\.eat\(cnt \+ advance\);/
+                proof {
+                    let q = base + cnt as int;
+                    assert(bit32(next, cnt as int) == vor.lanes[cnt as int]);
+                    assert(tokens@.contains(s[q]));
+                    assert forall|j: int| i0 <= j < q implies !tokens@.contains(#[trigger] s[j]) by {
+                        if j >= base { assert(bit32(next, j - base) == vor.lanes[j - base]); }
+                    }
+                }
+//@before /r\.eat\(LANS\)/
+            proof {
+                assert forall|j: int| base <= j < base + 32 implies !tokens@.contains(#[trigger] s[j]) by {
+                    lemma_zero32((j - base) as u32);
+                    assert(bit32(next, j - base) == vor.lanes[j - base]);
+                }
+            }
+//@loop 3
+            invariant self.pinv(), self.same_doc(old(self)), self.same_cache(old(self)), i0 <= self.read.idx(),
+                forall|j: int| i0 <= j < self.read.idx() ==> !tokens@.contains(#[trigger] s[j]),
+            decreases s.len() - self.read.idx(),
+//@forname 4 it2
+//@loop 4
+                invariant self.pinv(), self.same_doc(old(self)), self.same_cache(old(self)), self.read.idx() < s.len(), ch == s[self.read.idx() as int],
+                    ci == self.read.idx(),
+                    forall|k: int| 0 <= k < it2.index@ ==> tokens@[k] != ch,
+//@before /for t in tokens\.iter\(\)\.take\(N\)/ #2
+            let ghost ci = self.read.idx() as int;
+//@before /r\.eat\(advance\);/
+                    proof { assert(tokens@[it2.index@] == ch); assert(tokens@.contains(ch)); }
+//@before /r\.eat\(1\)/
+            proof { assert(!tokens@.contains(s[ci])); }
+//@end
 
 //@extract file=src/parser.rs impl="Parser<R>" fn=skip_number_unsafe
 //@attr
